@@ -563,9 +563,22 @@ def r11_3(ctx):
                     if isinstance(x, tuple) and x[0] == 'arm' and x[1] == e['i']:
                         return value_of(h.kid(e, 1 if x[2] else 2), facts)
                 return None
+            if e['k'] == 'ref':
+                for x in facts:
+                    if isinstance(x, tuple) and x[0] == 'var' and x[1] == e['name']:
+                        return x[2]
             return cu.const_of(e)
 
         def step2(n, facts, c=c, h=h):
+            # `result = ERROR_X;` followed by `goto cleanup; ... return result;`
+            if n['k'] == 'bin' and n['op'] == '=':
+                l_ = cu.strip_casts(h, h.kid(n, 0))
+                if l_ is not None and l_['k'] == 'ref' and l_.get('dk') == 'local':
+                    v_ = cu.const_of(cu.strip_casts(h, h.kid(n, 1)))
+                    facts = frozenset(x for x in facts if not (isinstance(x, tuple) and x[0] == 'var' and
+                                                               x[1] == l_['name']))
+                    if v_ is not None:
+                        facts = facts | {('var', l_['name'], v_)}
             if n['k'] == 'ret' and 'cberr' in facts:
                 seen[0] = True
                 if value_of(h.kid(n, 0), facts) != ECB:
